@@ -9,7 +9,7 @@ RULE = ("inputs: (i) random Unicode strings <= 64 chars biased to the lexer's ch
         "braces, °', multi-byte letters, every kind of Unicode whitespace); (ii) token soups <= 40 tokens from the real vocabulary (numbers "
         "with exponents <= 3 digits, unit words, fact words, function names, `to`, punctuation); (iii) mutations (delete/duplicate/swap/"
         "splice) of every query in tests/ and the README; (iv) mostly well-formed structured queries (quantities, functions incl. round(x,n), facts, "
-        "powers, casts), 40% of them mutated; (v) long operator-free phrases (<= 40 words, 100-300 bytes, multi-byte characters at arbitrary byte offsets); (vi) pumped strings "
+        "powers, casts), 40% of them mutated; (v) long operator-free phrases (<= 40 words, 100-300 bytes, multi-byte characters at arbitrary byte offsets); (vi) chains of two-digit powers over a quantity of value 1, -1 or 0 (the unit's power heads for the 32-bit limits, the value stays trivial); (vii) pumped strings "
         "prefix + pattern^k + middle + closing^k + suffix of <= 300 characters. Bounds as the property states: a token after ^ or ** (and the digits argument of "
         "round) is an integer literal of <= 2 digits and the product of all power magnitudes in one input is <= 600. Each input is run "
         "through parse+query in the debug-assertion and the release build; refuted by: a panic, abort or signal, no result sequence, an "
@@ -142,6 +142,19 @@ def gen_pumped(rng, vocab):
     pre = rng.choice(["", "", "1 + ", "2 * ", " ", "round(1, ", "3 m to "])
     suf = rng.choice(["", "", " + 1", " to m", ")", " m", " * 2"])
     return (pre + pat * k + mid + clo * k + suf)[:300]
+
+def gen_tower(rng):
+    """A chain of two-digit powers over a quantity whose VALUE is 1, -1 or 0 (so that the repeated-multiplication power loop stays
+    trivial and the generator's power budget does not apply): the UNIT's power runs through 99^2, 99^3, 99^4 ... towards the limits
+    of a 32-bit integer, alone, multiplied with another quantity, cast, added. Every token is inside the property's bounds."""
+    # (prefix-free units without a conversion factor only: 10^(prefix x power) or (381/1250)^power with power ~ 10^6 is merely slow)
+    u = rng.choice(["V", "m/s^99", "N", "m", "s^-99", "kg*m/s^2", "W/m^2", "ohm", "m^99/s", "J^-99", "A", "Pa"])
+    if "^" not in u and rng.random() < 0.7:
+        u += "^%d" % rng.choice([99, -99, 98, 64, 50])
+    chain = "".join("^%d" % rng.choice([99, 99, 99, 98, 64, 22, 12, 11, 8, 5, 2]) for _ in range(rng.randint(2, 6)))
+    q = "(%s %s)%s" % (rng.choice(["1", "1", "-1", "0", "1.0"]), u, chain)
+    tail = rng.choice(["", "", " * 1m", " * 1 m", " to m", " / 1 s", " + 1 m", " * (1 %s)%s" % (u, chain), " * 2 A", " to V^2", " * 1 N", " / 3 W"])
+    return q + tail
 
 def mutate(rng, s):
     toks = re.findall(r"\s+|[A-Za-z°']+|[0-9.]+(?:[eE][+-]?[0-9]+)?|.", s, re.S)
@@ -279,7 +292,9 @@ def shard(p):
     inputs = []
     for _ in range(p["n"]):
         r = rng.random()
-        if r < 0.05:
+        if r < 0.015:
+            inputs.append(("tower", gen_tower(rng)))
+        elif r < 0.05:
             inputs.append(("pumped", gen_pumped(rng, vocab)))
         elif r < 0.10:
             inputs.append(("phrase", gen_phrase(rng, vocab)))
@@ -291,7 +306,7 @@ def shard(p):
             inputs.append(("structured", gen_structured(rng, vocab)))
         else:
             inputs.append(("mutation", mutate(rng, rng.choice(p["corpus"]))))
-    inputs = [(f, bound_powers(s)) for f, s in inputs]
+    inputs = [(f, s if f == "tower" else bound_powers(s)) for f, s in inputs]
     for kind in p["builds"]:
         d = Driver(p["bins"][kind])
         try:
